@@ -256,7 +256,14 @@ impl C05 {
         };
         // append unrelated definitions
         let mut b2 = b.clone();
-        let what = match rng.usize(5) {
+        let what = match rng.usize(6) {
+            5 if b.schedules.iter().any(|x| x.btype == "DAY-SCHEDULE-PD") => {
+                // an unreferenced weekly schedule that happens to carry the name of an existing daily schedule (the three
+                // kinds of schedule have separate name spaces)
+                let day = b.schedules.iter().find(|x| x.btype == "DAY-SCHEDULE-PD").unwrap().name.clone();
+                b2.schedules.push(ABlock::new(&day, "WEEK-SCHEDULE-PD").w("TYPE", "FRACTION").strs("DAY-SCHEDULES", vec![day.clone()]));
+                "weekly schedule named like a daily one"
+            }
             0 => {
                 b2.materials.push(ABlock::new("Material_ajeno_verif", "MATERIAL").w("TYPE", "PROPERTIES").num("CONDUCTIVITY", 0.5).num("DENSITY", 1000.0));
                 "material"
